@@ -25,15 +25,26 @@ LEVEL_TEXT = ('The cache / transaction / copy discipline is proved for every edi
               'event lists regenerated from the source on each run; a decidable static analysis of those lists (TablesOK) is proved '
               'sound for the interpreter (every reachable object has no stale memoised value outside a transaction and no stale '
               'ring/component value ever, coherent backup snapshots, assigned transaction slots; abort restores exactly the '
-              'snapshot; operations touch only their own object; accepted methods never raise AttributeError; raw edits keep the '
-              'adjacency symmetric) and is discharged by kernel evaluation on the regenerated table. Freshness of stored hydrogen '
-              'counts and labels is validated by the correspondence and the search, not proved. Proof is the right level because '
-              'the discipline is a finite protocol over an unbounded graph, which induction over op lists closes outright.')
-LEVEL_NOTE = ('Lean kernel; gen_effects AST extractor; hand-written data semantics of the raw graph edits and of object creation '
-              '(validated by the correspondence); Spec/Deps.lean (which memoised value may depend on what; validated by comparing '
-              'every memoised value with an independently rebuilt molecule); stereo marks and the values of derived attributes '
-              'are outside the model.')
-TECHNIQUE = 'Lean 4 interpreter over regenerated effect lists + proved-sound static analysis (decide) + op-sequence correspondence'
+              'snapshot; operations touch only their own object, also over whole op sequences; accepted methods never raise '
+              'AttributeError) and is discharged by kernel evaluation on the regenerated table. Proved as invariants of every '
+              'reachable state over the full op alphabet: the stored graph (live and snapshot) is well-formed - keys unique, no '
+              'self-loops, adjacency symmetric with the same bond on both sides (all histories, failing operations included); the '
+              'stored labels of every object outside a transaction are fresh (remap / union via snapshot lemmas on well-formed '
+              'graphs). Stored hydrogen counts: proved fresh in every state reachable through transactions (committed or aborted), '
+              'attribute writes, add_atom and ordinary bond edits in and outside blocks, public fix_structure outside, reads, copy '
+              '(HydrogensFresh_reachable_partial); the full statement is false (two known findings, both need a public '
+              'fix_structure() inside a block; Lean witnesses show the partial theorem is tight); delete_atom, order-8 bonds, remap, '
+              'union, substructure are validated for hydrogens by the correspondence and the search only. Returned molecules are new '
+              'objects (regenerated scan + created_is_new), remap gives exactly the mapped numbers, 0 included. Proof is the right '
+              'level because the discipline is a finite protocol over an unbounded graph, which induction over op lists closes.')
+LEVEL_NOTE = ('Lean kernel; gen_effects AST extractor (effect lists, keep lists, slots, returnsSelf scan, split shape, derived-constructor '
+              'delegation); hand-written data semantics of the raw graph edits and of object creation (validated by the correspondence '
+              'after every operation, including Mol.WF against the real object with bond identity); Spec/Deps.lean (which memoised value '
+              'may depend on what, which methods may hand out self; validated by comparing every memoised value with an independently '
+              'rebuilt molecule); stereo marks and the values of derived attributes are outside the model; the hydrogen theorems are '
+              'for today\'s regenerated table (kernel-evaluated event lists), the cache / wf / label theorems for every accepted table.')
+TECHNIQUE = ('Lean 4 interpreter over regenerated effect lists + proved-sound static analysis (decide) + invariants by induction over op '
+             'lists (wf, labels, hydrogens via a proved projection of the interpreter) + op-sequence correspondence + always-on property oracle')
 HAS_DRIVER = True
 EXTRA_MODULES = []
 FINDINGS_MODULE = 'ChythonModel.Findings.C13'
